@@ -267,13 +267,13 @@ PROPS = {
         "technique": "abstract interpretation over the sign domain (R5) + MIR def-use checks of the error closures + guard dominance; loop-exit forward taint over the float conversion's digit loop (read set); ordering-test requirement for unsigned-to-signed casts",
     },
     "C09": {
-        "clauses": [r9.check_iterators, r9.check_iterator_write_sets, r9.check_sign_readers, r5check.check_constructors, r1.check_biguint_normal_form, count_ok("biguint/convert.rs", "bigint/convert.rs", "biguint/iter.rs", floor=100), selftest("R2-count-narrowed")],
-        "not_decided": "byte regrouping arithmetic, two's-complement byte loops, the value sequences of the iterators beyond the read/write-set conditions",
+        "clauses": [r9.check_iterators, r9.check_iterator_write_sets, r9.check_exhaustion_tests_live, selftest("R9-exhaustion-test"), r9.check_sign_readers, r5check.check_constructors, r1.check_biguint_normal_form, count_ok("biguint/convert.rs", "bigint/convert.rs", "biguint/iter.rs", floor=100), selftest("R2-count-narrowed")],
+        "not_decided": "byte regrouping arithmetic, two's-complement byte loops, the value sequences of the iterators beyond the read/write-set conditions and the liveness of their exhaustion tests",
         "level_text": "Decides: every U32Digits cursor method (next, next_back, len, last, count, size_hint) consults all three cursor fields, directly or through the cursor "
         "methods it calls (the rule that exposed the U32Digits::last defect), and next/next_back update all three; U64Digits methods delegate to the slice "
         "iterator; signed-byte exporters read the sign; importers (from_bytes_*, from_slice, new, from_signed_bytes_*) return canonical values with the sign "
-        "placed as documented.",
-        "technique": "interprocedural field read-set analysis over MIR (necessity rule)",
+        "placed as documented. Also: no cursor method tests a slice field for emptiness where a dominating split_last/first/last of that unmodified field has already answered Some (a constantly false exhaustion test).",
+        "technique": "interprocedural field read-set analysis over MIR (necessity rule); dominance-based contradiction check of exhaustion tests",
     },
     "C10": {
         "clauses": [_c10_forwarders, _c10_signed, _c10_folds, _no_narrowing, r3.check_panic_site_table, both(r3.check_underflow_asserts), r3.check_add2_carry_used, r9.check_carry_exits, r3.check_division_scaling, r5check.check_arithmetic(None, 85), r5check.check_powers, r5check.check_upow, r3.check_operand_overflow, r5check.check_shifts, r5check.check_bitops, r5check.check_division_methods, r5check.check_roots, r5check.check_modular, r1.check_no_constant_cut, selftest("R2-operand-narrowed", "R3c-operand-overflow", "R3c-operand-overflow-abs", "R1-constant-cut", "R3c-digit-step"), both(r3.check_div_guards), r3.check_digit_step_checked, r1.check_biguint_normal_form],
